@@ -239,7 +239,8 @@ def make_case(rng, mix, dtype, batch, cfg):
 def cell_of(c):
     b = "x".join(map(str, c["batch"])) or "scalar"
     return (f"C16/{c['via']}/{c['dtype']}/b={b}/mix={c['mix']}/jit={c['jit_mode']}/tries={c['tries_mode']}:{c['tries']}"
-            f"/upper={int(c['upper'])}/out={int(c['out'])}/layout={c['layout']}/trace={int(c.get('trace', False))}")
+            f"/upper={int(c['upper'])}/out={int(c['out'])}/layout={c['layout']}/trace={int(c.get('trace', False))}"
+            f"/n={c['n'] if c['n'] <= 2 else '3+'}")
 
 
 def case_tensors(c):
@@ -289,6 +290,9 @@ def spec_of(c):
         needs.append(e)
     if c.get("trace"):
         return dict(err="trace", J=J, T=T, needs=needs)
+    if c["via"] != "func" and c["n"] == 1:
+        # LinearOperator._cholesky: legitimate 1x1 shortcut clamp_min(0).sqrt(); psd_safe_cholesky is not involved
+        return dict(err="opshortcut", J=J, T=T, needs=needs)
     failing = [e for e in needs if e is not None]
     if not failing:
         return dict(err="ok", tries=0, added=[Fraction(0)] * len(needs), J=J, T=T, needs=needs)
@@ -446,6 +450,16 @@ def check_impl_vs_spec(c, obs, sp):
         bad.append("storage around the input view modified")
     if sp["err"] == "trace":
         return bad
+    if sp["err"] == "opshortcut":
+        # outside the property (it is about psd_safe_cholesky); positive members must still get their exact factor
+        if obs["err"] is None:
+            Llow, raw = dense_result(c, obs)
+            _, A0 = case_tensors(c)
+            if Llow is not None and list(Llow.shape) == c["batch"] + [1, 1]:
+                for b, e_ in enumerate(sp["needs"]):
+                    if e_ is None and not torch.equal(Llow.reshape(-1)[b], A0.reshape(-1)[b].sqrt()):
+                        bad.append(f"1x1 operator, member {b} positive: factor is not sqrt(a)")
+        return bad
     want = sp["err"]
     if e != want:
         if want == "notpsd" and e == "unbound":
@@ -537,7 +551,8 @@ def model_line(c):
         sm = str(c["tries_decoy"])
     else:
         sm = "n"
-    return f"{j} {mt} {c['dtype']} {sj} {sm} {int(bool(c.get('trace')))} {int(c['upper'])} {int(c['out'])} {mem}"
+    pre = "" if c["via"] == "func" else "op "
+    return f"{pre}{j} {mt} {c['dtype']} {sj} {sm} {int(bool(c.get('trace')))} {int(c['upper'])} {int(c['out'])} {mem}"
 
 
 def parse_model(out):
@@ -633,8 +648,13 @@ def compare_model(c, obs, mo):
                     diffs.append(f"orientation impl={'upper' if isup else 'lower'} model upper flags={mo['upper']}")
             Lf = Llow.reshape(-1, n, n).double()
             for b, ms in enumerate(mo["ldl"].split("|")):
-                rows = [[Fraction(x) for x in r.split(",")] for r in ms.split(";")]
+                rows = [[float("nan") if x == "nan" else Fraction(x) for x in r.split(",")] for r in ms.split(";")]
                 D = [float(rows[i][i]) for i in range(n)]
+                if any(x != x for x in D):
+                    if not bool(torch.isnan(Lf[b]).any()):
+                        diffs.append(f"member {b}: model factor is NaN, implementation's is not")
+                        break
+                    continue
                 ref = torch.zeros(n, n, dtype=torch.float64)
                 for i in range(n):
                     for j in range(i + 1):
@@ -724,6 +744,18 @@ def catalogue(rng, tier):
         for mix in ("pd+psd0", "allpd"):
             cfg = gen_cfg(rng, mix, dtype, (2,), "func", dict(trace=True, out=False))
             cases.append(make_case(rng, mix, dtype, (2,), cfg))
+    # 1x1 and 2x2 members of every kind, single and in mixed batches, on every route.  (The function has no size shortcut;
+    # LinearOperator._cholesky has a legitimate 1x1 one, modelled by `opCholesky`.)
+    small_mixes = [m for m in MIXES if m not in ("psdc+pd", "two+ind0")]
+    for n_ in (1, 2):
+        for via in ("func", "dense_op", "to_linop", "sum_op", "blockdiag_op"):
+            for dtype in ("f32", "f64"):
+                for mix in small_mixes:
+                    for batch in ([(), (3,), (2, 2)] if via != "blockdiag_op" else [(3,), (2, 2)]):
+                        for _ in range(1 if tier == "quick" else 3):
+                            cfg = gen_cfg(rng, mix, dtype, batch, via, dict(layout="contig" if via == "sum_op" else None))
+                            cfg["sizes"] = [n_]
+                            cases.append(make_case(rng, mix, dtype, batch, cfg))
     # operator routes
     opmixes = ["allpd", "pd+psd0", "pd+ind1+psd0", "ind1+ind2+pd", "psd0+neg+pd", "pd+nan", "last+pd", "over+psd0", "two+ind0", "cpl+pd"]
     for via in ("dense_op", "to_linop", "sum_op", "blockdiag_op"):
@@ -779,6 +811,7 @@ def process(chk, cases):
         chk.count("batch:" + "x".join(map(str, c["batch"])))
         chk.count("mix:" + c["mix"])
         chk.count("layout:" + c["layout"])
+        chk.count("n:" + str(c["n"]))
         chk.count(f"jit:{c['jit_mode']}")
         chk.count(f"tries:{c['tries_mode']}")
         for k, pos in zip(c["kinds"], c["pos"]):
